@@ -406,6 +406,35 @@ def oracle(ctx):
         if unknown_failures(ctx) >= STOP_AFTER or ctx.hist.get("oracle_hang", 0) >= 5:
             ctx.note("oracle sweep stopped early: %d failing inputs in hand" % len(ctx.violations))
             return
+    # the same two INSTANTS in another zone, later in the same process: aware datetimes of different zones that denote one instant
+    # are == and hash alike, so anything remembered per (dt1, dt2) answers for the wrong wall clocks.  relativedelta(a, b) is
+    # evaluated first in one zone, then the law is checked on a.astimezone(z), b.astimezone(z) (one tzinfo object for both).
+    zs = [z for z in L.zones()]
+    for _ in range(ctx.budget(6000, 60000)):
+        z1, z2 = rng.sample(zs, 2)
+        y = rng.choice([1999, 2000, 2001, 2020, 2023, 2024, 2100, rng.randint(2, 9998)])
+        m = rng.randint(1, 12)
+        try:
+            b = datetime.datetime(y, m, rng.choice([1, 1, 28, 29, 30, 31, 15]), rng.choice([0, 1, 2, 3, 4, 5, 12, 18, 19, 20, 21, 22, 23]),
+                                  rng.choice([0, 0, 29, 30, 31, 59]), tzinfo=z1)
+        except ValueError:
+            continue
+        try:
+            a = b + datetime.timedelta(days=rng.choice([0, 1, 27, 28, 29, 30, 31, 32, 59, 60, 61, 365, 366, -1, -30, -31, -365,
+                                                        rng.randint(-800, 800)]),
+                                       hours=rng.randint(-23, 23), minutes=rng.choice([0, 0, 30, 59]))
+            a2, b2 = a.astimezone(z2), b.astimezone(z2)
+        except (OverflowError, ValueError):
+            continue
+        if rng.random() < 0.5:
+            a, b, a2, b2 = b, a, b2, a2
+        check_pair(ctx, a, b)                                   # first sight of the pair of instants
+        ctx.count("oracle_same_instants_other_zone")
+        if (a2.month, a2.day, b2.month, b2.day) != (a.month, a.day, b.month, b.day):
+            ctx.count("oracle_same_instants_other_calendar_day")
+        check_pair(ctx, a2, b2, {"primed_by": [L.t_wire(a), L.t_wire(b)]})
+        if unknown_failures(ctx) >= STOP_AFTER:
+            break
     # the history of a difference object: use -> mutate (weeks setter / attribute assignment) -> use again; every observation
     # (dt2 + d included) equals that of a fresh object with the current fields
     L.history_oracle(ctx, ctx.subrng("oracle-history"),
@@ -474,6 +503,10 @@ def replay(ctx, payload):
             print("still failing:", v["what"])
         return not sub.violations
     a, b = L.parse_t(c["a"].split()), L.parse_t(c["b"].split())
+    if c.get("primed_by"):
+        from dateutil.relativedelta import relativedelta as _rd0
+        pa, pb = L.parse_t(c["primed_by"][0].split()), L.parse_t(c["primed_by"][1].split())
+        print("first: relativedelta(%s, %s) = %r" % (pa, pb, _rd0(pa, pb)))
     check_pair(sub, a, b)
     print("a=%s b=%s relativedelta(a,b)=%s model=%s" % (a, b, impl_diff(a, b),
                                                          ctx.driver(["rd.diff %s %s" % (L.t_wire(a), L.t_wire(b))])[0]))
